@@ -103,7 +103,7 @@ func (x *seth) Observe() *seqmc.Fail { return nil }
 // entries) a set over two values can reach, with the shortest call sequence reaching it.
 func allLayouts(r *ev.Run) []layout {
 	var out []layout
-	seqmc.Explore(r, seqmc.Config{Name: "layouts", Workers: 1, New: func() seqmc.Sys { return &seth{s: new(sync2.Set[int])} },
+	seqmc.Explore(r, seqmc.Config{Name: "layouts", Workers: 1, MaxStates: 1500, New: func() seqmc.Sys { return &seth{s: new(sync2.Set[int])} },
 		OnState: func(path []seqmc.Op) {
 			l := layout{name: fmt.Sprint("L", len(out), ":")}
 			for _, o := range path {
@@ -175,17 +175,21 @@ func scenario(lay layout, prog [][]call, bound, raceBound int) schk.Scenario {
 		name += fmt.Sprint(p)
 	}
 	return schk.Scenario{
-		Name: name, Bound: bound, RaceBound: raceBound,
+		Name: name, Bound: bound, RaceBound: raceBound, MaxSteps: 20000 + 200*len(lay.pre),
 		Body: func(s *vrt.Sched) any {
 			r := &rec{s: new(sync2.Set[int]), ops: make([][]lin.Op, len(prog)), groups: make([][]lin.Group, len(prog))}
 			for _, c := range lay.pre {
 				switch c.op {
 				case "Add":
 					r.s.Add(c.v)
-					r.init[c.v] = true
+					if c.v < lin.Keys {
+						r.init[c.v] = true
+					}
 				case "Remove":
 					r.s.Remove(c.v)
-					r.init[c.v] = false
+					if c.v < lin.Keys {
+						r.init[c.v] = false
+					}
 				case "Has":
 					r.s.Has(c.v)
 				case "Len":
@@ -245,7 +249,14 @@ func scenario(lay layout, prog [][]call, bound, raceBound int) schk.Scenario {
 				}
 				all = append(all, lin.Op{Kind: "Has", Key: v, Ok: final[v], Thread: 50 + v, Inv: last + 10 + 4*v, Ret: last + 11 + 4*v})
 			}
-			if l, sl := r.s.Len(), r.s.Slice(); l != n || len(sl) != n {
+			l, sl := r.s.Len(), r.s.Slice()
+			extra := 0 // crowd values outside the modelled universe
+			for _, v := range sl {
+				if v >= lin.Keys {
+					extra++
+				}
+			}
+			if l != n+extra || len(sl) != n+extra {
 				return schk.Failf("final-state", "after quiescence Has says %v but Len = %d and Slice = %v", final, l, sl), ""
 			}
 			ok, desc := lin.CheckSetGroups(r.init, all, groups)
@@ -278,7 +289,36 @@ func main() {
 	small := []call{{"Add", 0}, {"Remove", 0}, {"Has", 0}, {"Add", 1}, {"Len", 0}, {"RemoveSet", 3}}
 	var scs []schk.Scenario
 	layouts := allLayouts(r)
+	if max := ev.Pick(r, 150, 1500); len(layouts) > max {
+		// far more concrete layouts than a 2-value set has on the pinned code (e.g. a counter was
+		// added to the structure): the shallowest ones are used, the run is not exhaustive
+		layouts = layouts[:max]
+		r.MarkCapped()
+	}
 	r.Set("start_layouts", len(layouts))
+	// large sets: n+1 values added and promoted, n-1 of them removed again in the set-up, so that
+	// the concurrent phase sees the n-th removal and the re-Add of a removed value in a big map
+	// (maintenance work behind a count-of-operations or size threshold)
+	for _, n := range []int{15, 16, 63, 64, 255, 256, 1023, 1024, 4095, 4096} {
+		var pre []call
+		for v := 0; v <= n; v++ {
+			pre = append(pre, call{"Add", 10 + v})
+		}
+		pre = append(pre, call{"Add", 0}, call{"Add", 1}, call{"Len", 0})
+		for v := 1; v < n; v++ {
+			pre = append(pre, call{"Remove", 10 + v})
+		}
+		pre = append(pre, call{"Remove", 1})
+		lay := layout{name: fmt.Sprintf("big%d:", n), pre: pre}
+		for _, pp := range [][][]call{
+			{{{"Remove", 0}}, {{"Add", 1}}},
+			{{{"Remove", 0}}, {{"Add", 1}, {"Has", 1}}},
+			{{{"Remove", 0}, {"Add", 0}}, {{"Add", 1}, {"Remove", 1}}},
+			{{{"Remove", 0}}, {{"Add", 1}}, {{"Has", 1}}},
+		} {
+			scs = append(scs, scenario(lay, pp, ev.Pick(r, 2, 3), -2))
+		}
+	}
 	for n, li := range layouts {
 		big := n%ev.Pick(r, 6, 2) == 0 // the larger programs start from a spread-out subset of the layouts
 		// 2 threads x 1 call: all pairs, all interleavings
